@@ -7,6 +7,7 @@ import (
 	"errors"
 	"fmt"
 	"os"
+	"runtime/debug"
 	"sync"
 )
 
@@ -54,6 +55,7 @@ type World struct {
 	relOnce  sync.Once
 	nonce    uint64
 	Notes    []string
+	Panics   []string // panics raised by the code under test inside a step
 
 	delivered map[int]int
 	dropped   map[int]bool
@@ -183,6 +185,13 @@ func (w *World) Step(n *Node, fn func()) (crashed bool) {
 	done := make(chan struct{})
 	go func() {
 		defer close(done)
+		defer func() {
+			if r := recover(); r != nil {
+				w.mu.Lock()
+				w.Panics = append(w.Panics, fmt.Sprintf("%v\n%s", r, debug.Stack()))
+				w.mu.Unlock()
+			}
+		}()
 		fn()
 	}()
 	select {
